@@ -390,6 +390,34 @@ func runC12(r *common.Rand, tier string, o *common.Out, replay string) {
 			c12Run(o, next(), "rr", []c12op{{update: true, servers: srv}, {selects: off}, {selects: 3*n + 1}})
 		}
 	}
+	// equal weights above 1 across membership changes that change nobody's weight: servers join and leave, the ones
+	// that stay are announced unchanged; after every update the selector must behave as plain round-robin
+	for w := 2; w <= 4; w++ {
+		for n0 := 1; n0 <= 4; n0++ {
+			for join := 0; join <= 2; join++ {
+				for leave := 0; leave <= 1 && leave < n0; leave++ {
+					if join == 0 && leave == 0 {
+						continue
+					}
+					meta := fmt.Sprintf("weight=%d", w)
+					var first, second [][2]string
+					for i := 0; i < n0; i++ {
+						first = append(first, [2]string{names[i], meta})
+						if i >= leave {
+							second = append(second, [2]string{names[i], meta})
+						}
+					}
+					for j := 0; j < join; j++ {
+						second = append(second, [2]string{names[n0+j], meta})
+					}
+					off := r.Intn(w*n0 + 1)
+					c12Run(o, next(), "wrr", []c12op{{update: true, servers: first}, {selects: off}, {update: true, servers: second},
+						{selects: 3*w*len(second) + 1}})
+					o.Count("equal-weights-membership-change")
+				}
+			}
+		}
+	}
 	// random histories: updates changing membership and weights, interleaved with selection runs
 	nh := 300
 	if tier == "thorough" {
